@@ -9,10 +9,19 @@
 // for the resulting forces.  Where the documentation has no formula (brick/half-space penalty, Stribeck curve of
 // the CompliantContactSubsystem between stiction and sliding, material combination of the elastic-foundation
 // generator) only the qualitative laws are checked and the case is counted as unspecified.
+// Extensions: (a) Hertz elliptical between two curved surfaces (ellipsoid/sphere in both assignments, ellipsoid/ellipsoid; ConvexImplicitPair
+// tracker): relative principal curvatures = eigenvalues of the sum of the two curvature tensors (ContactGeometry::combineParaboloids /
+// EllipticalPointContact documentation), computed by the harness from the implicit equations at contact points it chooses itself;
+// (b) mesh against mesh for ElasticFoundationForce (parameters on one / the other / both meshes) and for the CompliantContactSubsystem
+// generator (rigid limit of one mesh), brute force over all faces of both convex meshes; (c) brick/half-space: the dissipation law of
+// ContactSurface.h judged quantitatively on the resultant (pure relative translation); (d) parameter changes through every public setter on an
+// already realized system, all setter sequences of length 1 and 2, compared with a freshly constructed fixture.
 #include "Simbody.h"
 #include "verif.h"
 #include "geomkit.h"
 
+#include <array>
+#include <functional>
 #include <memory>
 
 using namespace SimTK;
@@ -60,6 +69,21 @@ static Real hertzEccentricityFactor(Real kmax, Real kmin) {
     return (Real)(3.14159265358979323846264338327950288L * k * sqrtl(E) / (2 * K * sqrtl(K)));
 }
 
+// Curvature tensor (second fundamental form as a 3x3 matrix in the shape frame, the normal is in its null space) of the ellipsoid
+// sum (x_i/r_i)^2 = 1 at its surface point p: for an implicit surface f = 0 the normal curvature along a unit tangent t is t'Ht/|grad f|.
+static Mat33 ellipsoidCurvatureTensor(const Vec3& r, const Vec3& p) {
+    const Vec3 g(2 * p[0] / (r[0] * r[0]), 2 * p[1] / (r[1] * r[1]), 2 * p[2] / (r[2] * r[2])); const Real gn = g.norm(); const Vec3 nn = g / gn;
+    Mat33 H(0); for (int i = 0; i < 3; ++i) H(i, i) = 2 / (r[i] * r[i]);
+    Mat33 P(1); for (int i = 0; i < 3; ++i) for (int j = 0; j < 3; ++j) P(i, j) -= nn[i] * nn[j];
+    return P * H * P / gn;
+}
+static Mat33 sphereCurvatureTensor(Real R, const Vec3& nn) { Mat33 P(1); for (int i = 0; i < 3; ++i) for (int j = 0; j < 3; ++j) P(i, j) -= nn[i] * nn[j]; return P / R; }
+// principal values of a symmetric tensor K restricted to the plane perpendicular to n (t: any unit vector in that plane)
+static void principalCurvatures(const Mat33& K, const Vec3& n, const Vec3& t, Real& kmax, Real& kmin) {
+    const Vec3 t2 = n % t; const Real a = dot(t, K * t), b = dot(t, K * t2), d = dot(t2, K * t2);
+    const Real mean = (a + d) / 2, dev = std::sqrt(square((a - d) / 2) + b * b); kmax = mean + dev; kmin = mean - dev;
+}
+
 // ---------------------------------------------------------------- value tables
 static const char* modelName(int m) {
     static const char* n[] = {"HuntCrossleyForce", "ElasticFoundationForce", "CCS-HertzCircular", "CCS-HertzElliptical", "CCS-BrickHalfSpace", "CCS-ElasticFoundation", "SmoothSphereHalfSpaceForce"};
@@ -70,12 +94,21 @@ struct Matl { Real E, c, us, ud, uv; };
 static void frictionSet(int f, Real& us, Real& ud, Real& uv) {
     switch (f) { case 0: us = ud = uv = 0; break; case 1: us = 0.8; ud = 0.5; uv = 0; break; default: us = 0.9; ud = 0.6; uv = 0.3; break; }
 }
-struct Case { int model, mat, fric, partner, depth, vn, vt, spin, variant; };
+// pair: 0 = the partner kinds of the original lattice; Hertz elliptical: 1 = ellipsoid on B / sphere partner, 2 = sphere on B / ellipsoid
+// partner, 3 = ellipsoid on B / ellipsoid partner (relative-curvature path, ConvexImplicitPair tracker); mesh models: 5 = mesh partner.
+// swap: the two Free bodies exchange their roles (the surface order seen by the tracker / contact set is reversed).
+// par (mesh/mesh only): ElasticFoundationForce 0 = parameters on B's mesh only, 1 = on the partner mesh only, 2 = on both;
+//                       CCS generator 0 = partner rigid (1e17), 1 = B's mesh rigid, 2 = comparable materials (combination unspecified).
+struct Case { int model, mat, fric, partner, depth, vn, vt, spin, variant; int pair = 0, swap = 0, par = 0; };
+static const Real GEO_TOL_IMPLICIT = 1e-12;   // worst observed 1.3e-15 (deformation, normal), 9.4e-16 (rate)
+enum { P_LEGACY = 0, P_ELL_SPHERE = 1, P_SPHERE_ELL = 2, P_ELL_ELL = 3, P_MESH_MESH = 5 };
 static std::string caseStr(const Case& c) {
     static const char* dn[] = {"separated", "touching", "small", "large"}; static const char* vnn[] = {"approach", "rest", "separate-slow", "separate-fast"};
     static const char* vtn[] = {"0", "below-transition", "above-transition", "large"}; static const char* pn[] = {"partner-on-Ground", "halfspace-on-moving-body", "third-partner"};
     return std::string(modelName(c.model)) + " mat=" + std::to_string(c.mat) + " fric=" + std::to_string(c.fric) + " " + pn[c.partner] + " depth=" + dn[c.depth] + " vn=" + vnn[c.vn] +
-           " vt=" + vtn[c.vt] + " spin=" + (c.spin ? "rolling" : "0") + " variant=" + std::to_string(c.variant);
+           " vt=" + vtn[c.vt] + " spin=" + (c.spin ? "rolling" : "0") + " variant=" + std::to_string(c.variant) +
+           (c.pair ? std::string(" pair=") + (c.pair == P_ELL_SPHERE ? "ellipsoid-on-B/sphere" : c.pair == P_SPHERE_ELL ? "sphere-on-B/ellipsoid" : c.pair == P_ELL_ELL ? "ellipsoid/ellipsoid" : "mesh/mesh") +
+                         " bodies=" + (c.swap ? "swapped" : "in-order") + (c.pair == P_MESH_MESH ? " par=" + std::to_string(c.par) : std::string()) : std::string());
 }
 
 // harness-owned rigid-body kinematics in Ground
@@ -112,14 +145,19 @@ static void checkThirdLaw(verif::Run& run, const std::string& model, const Vecto
 // ---------------------------------------------------------------- one case of the single-contact models
 static void contactCase(verif::Run& run, const Case& cs) {
     const std::string desc = caseStr(cs);
-    const std::string mn = modelName(cs.model);
+    const std::string mn = std::string(modelName(cs.model)) + (cs.pair == P_ELL_SPHERE || cs.pair == P_SPHERE_ELL ? "(ellipsoid-sphere)" : cs.pair == P_ELL_ELL ? "(ellipsoid-ellipsoid)" : cs.pair == P_MESH_MESH ? "(mesh-mesh)" : "");
     auto where = [&] { return desc; };
     Fixture fx;
+    MobilizedBody::Free& bodyA = cs.swap ? fx.B : fx.A;      // carrier of the partner surface (unless it is on Ground)
+    MobilizedBody::Free& bodyB = cs.swap ? fx.A : fx.B;      // carrier of "the" shape
     const int v = cs.variant;
     // ---- sizes
     const Real Rb = v == 0 ? 0.5 : v == 1 ? 0.3 : 0.8;          // sphere / circumscribed radius on B
     const Real Ra = v == 0 ? 0.7 : v == 1 ? 0.45 : 1.1;         // partner sphere
-    const bool partnerSphere = cs.partner == 2 && (cs.model == M_HC || cs.model == M_EF || cs.model == M_CHC || cs.model == M_CEF);
+    const bool partnerSphere = (cs.partner == 2 && (cs.model == M_HC || cs.model == M_EF || cs.model == M_CHC || cs.model == M_CEF)) || cs.pair == P_ELL_SPHERE;
+    const bool partnerEllipsoid = cs.pair == P_SPHERE_ELL || cs.pair == P_ELL_ELL;
+    const bool partnerMesh = cs.pair == P_MESH_MESH;
+    const bool shapeSphere = cs.pair == P_SPHERE_ELL;            // Hertz elliptical with the sphere on B and the ellipsoid as partner
     const int alt = (cs.partner == 2 && !partnerSphere) ? 1 : 0; // alternative shape / parameter variant for the models without a sphere partner
     const bool onGround = cs.partner == 0;
     // ---- materials
@@ -127,8 +165,15 @@ static void contactCase(verif::Run& run, const Case& cs) {
     Matl m1, m2;   // m1: partner surface, m2: surface on B
     if (cs.mat == 0) { m1 = {1e6, 0.4, us, ud, uv}; m2 = m1; }
     else { m1 = {2e5, 0.8, 0.75 * us, 0.75 * ud, 0.5 * uv}; m2 = {5e6, 0.1, us, ud, uv}; }
-    const Real thickness = 0.02;
+    const Real thickness = 0.02, thicknessA = 0.03;
     if (cs.model == M_CEF && cs.mat == 0) { m1.E = 1e17; m1.c = 0; }      // rigid-partner limit: composite = the mesh's own documented material
+    if (partnerMesh) {
+        // two meshes: B's mesh (1e6, .4, friction set) and the partner mesh (2.5e6, .2, 0.75x / 0.5x friction) -- ElasticFoundationForce springs keep
+        // the parameters of their own mesh; the CompliantContactSubsystem generator is judged in the rigid limit of one of the two (same friction on both)
+        m2 = {1e6, 0.4, us, ud, uv}; m1 = {2.5e6, 0.2, 0.75 * us, 0.75 * ud, 0.5 * uv};
+        if (cs.model == M_CEF && cs.par == 0) m1 = {1e17, 0, us, ud, uv};
+        if (cs.model == M_CEF && cs.par == 1) { m2 = {1e17, 0, 0.75 * us, 0.75 * ud, 0.5 * uv}; }
+    }
     const Real vtrans = cs.mat == 0 ? 0.05 : 0.01;                         // set 1 keeps the documented default 0.01 where the class has one
     // ---- poses (three fixed generic sets)
     static const Real ang[3][9] = {{0.2, -0.3, -1.3, 0.3, -0.4, 0.2, -0.5, 0.25, 0.6}, {-0.6, 0.45, 0.8, -0.2, 0.7, -0.35, 0.4, -0.55, 0.15}, {1.1, 0.2, -0.4, 0.5, 0.1, 0.9, -0.3, -0.7, 0.35}};
@@ -139,13 +184,20 @@ static void contactCase(verif::Run& run, const Case& cs) {
     const Transform X_BS2(Rotation(BodyRotationSequence, 0.35, XAxis, -0.2, YAxis, 0.5, ZAxis), Vec3(0, 0.05, 0.1));
     // outward normal of the partner at the contact, foot point on its surface
     Vec3 n, foot;
-    if (partnerSphere) { n = X_GS1.R() * Vec3(UnitVec3(0.48, 0.6, -0.64)); foot = X_GS1.p() + Ra * n; }
+    Vec3 radiiA(0);
+    if (partnerSphere || partnerMesh) { n = X_GS1.R() * Vec3(UnitVec3(0.48, 0.6, -0.64)); foot = X_GS1.p() + Ra * n; }
+    else if (partnerEllipsoid) {
+        // partner ellipsoid: the harness CHOOSES the outward normal dA at the contact and takes the surface point that has it (closed form)
+        radiiA = Vec3(1.5, 0.9, 1.2) * (Ra / 1.2);
+        const Vec3 dA(UnitVec3(0.48, 0.6, -0.64)); const Real hA = std::sqrt(square(radiiA[0] * dA[0]) + square(radiiA[1] * dA[1]) + square(radiiA[2] * dA[2]));
+        n = X_GS1.R() * dA; foot = X_GS1 * Vec3(radiiA[0] * radiiA[0] * dA[0] / hA, radiiA[1] * radiiA[1] * dA[1] / hA, radiiA[2] * radiiA[2] * dA[2] / hA);
+    }
     else { n = -Vec3(X_GS1.x()); foot = X_GS1.p() + 0.3 * Vec3(X_GS1.y()) - 0.2 * Vec3(X_GS1.z()); }
     Vec3 t = tang(Vec3(0.3, 0.5, -0.8), n); t = t / t.norm();
     // ---- shape on B, its orientation in Ground, its support distance h towards the partner
     Rotation R_GS2(BodyRotationSequence, ang[v][6], XAxis, ang[v][7], YAxis, ang[v][8], ZAxis);
-    Vec3 radii(0), halfLen(0); gk::RefMesh mesh; Real h = Rb;
-    if (cs.model == M_CHE) {
+    Vec3 radii(0), halfLen(0); gk::RefMesh mesh, meshA; Real h = Rb;
+    if (cs.model == M_CHE && !shapeSphere) {
         radii = (alt ? Vec3(0.9, 1.6, 0.6) : Vec3(1.2, 0.8, 1.9)) * (Rb / 2);
         const Vec3 d = ~R_GS2 * (-n); h = std::sqrt(square(radii[0] * d[0]) + square(radii[1] * d[1]) + square(radii[2] * d[2]));
     } else if (cs.model == M_CBR) {
@@ -156,16 +208,18 @@ static void contactCase(verif::Run& run, const Case& cs) {
         const Vec3 d = ~R_GS2 * (-n); h = halfLen[0] * std::abs(d[0]) + halfLen[1] * std::abs(d[1]) + halfLen[2] * std::abs(d[2]);
     } else if (cs.model == M_EF || cs.model == M_CEF) {
         mesh = gk::icosphere(2, Rb);
+        if (partnerMesh) meshA = gk::icosphere(2, Ra);
     }
     const Rotation R_GB = R_GS2 * ~X_BS2.R();
     const bool isMesh = cs.model == M_EF || cs.model == M_CEF;
-    static const Real depthPoint[4] = {-0.1, 0, 0.008, 0.12}, depthMesh[4] = {-0.1, 0, 0.05, 0.2};
-    const Real depth = (isMesh ? depthMesh : depthPoint)[cs.depth] * Rb;
-    const Real depthNominal = (isMesh ? depthMesh : depthPoint)[2] * Rb;
+    static const Real depthPoint[4] = {-0.1, 0, 0.008, 0.12}, depthMesh[4] = {-0.1, 0, 0.05, 0.2}, depthMeshMesh[4] = {-0.1, 0, 0.1, 0.25};
+    const Real* depthTable = partnerMesh ? depthMeshMesh : isMesh ? depthMesh : depthPoint;   // (mesh/mesh: the depth is that of the circumscribed spheres)
+    const Real depth = depthTable[cs.depth] * Rb;
+    const Real depthNominal = depthTable[2] * Rb;
     // L0: point at distance h from the lowest point of B's shape, on the common normal through it (= the centre for a sphere).
     // The lowest point of B's shape projects onto 'foot'.
     Vec3 lowInShape = -h * (~R_GS2 * n);                         // sphere / nominal: straight below the centre
-    if (cs.model == M_CHE) { const Vec3 d = ~R_GS2 * (-n); lowInShape = Vec3(radii[0] * radii[0] * d[0], radii[1] * radii[1] * d[1], radii[2] * radii[2] * d[2]) / h; }
+    if (cs.model == M_CHE && !shapeSphere) { const Vec3 d = ~R_GS2 * (-n); lowInShape = Vec3(radii[0] * radii[0] * d[0], radii[1] * radii[1] * d[1], radii[2] * radii[2] * d[2]) / h; }
     const Vec3 L0 = foot + n * (h - depth);
     const Vec3 c = L0 - h * n - R_GS2 * lowInShape;              // origin of B's shape frame in Ground
     Kin kin;
@@ -186,56 +240,64 @@ static void contactCase(verif::Run& run, const Case& cs) {
     Force element; bool haveElement = false;
     SmoothSphereHalfSpaceForce* smooth = nullptr;
     Real smCf = 1e-5, smBd = 300, smBv = 50;
-    MobilizedBody carrier = onGround ? (MobilizedBody)fx.matter.updGround() : (MobilizedBody)fx.A;
-    Array_<Vec3> verts; Array_<int> faces;
+    MobilizedBody carrier = onGround ? (MobilizedBody)fx.matter.updGround() : (MobilizedBody)bodyA;
+    Array_<Vec3> verts, vertsA; Array_<int> faces, facesA;
     if (isMesh) { for (auto& p : mesh.v) verts.push_back(p); for (auto& f : mesh.f) for (int j = 0; j < 3; ++j) faces.push_back(f[j]); }
+    if (partnerMesh) { for (auto& p : meshA.v) vertsA.push_back(p); for (auto& f : meshA.f) for (int j = 0; j < 3; ++j) facesA.push_back(f[j]); }
     if (cs.model == M_HC || cs.model == M_EF) {
         fx.gcs.reset(new GeneralContactSubsystem(fx.sys));
         ContactSetIndex set = fx.gcs->createContactSet();
-        if (partnerSphere) fx.gcs->addBody(set, carrier, ContactGeometry::Sphere(Ra), X_AS1); else fx.gcs->addBody(set, carrier, ContactGeometry::HalfSpace(), X_AS1);
+        // surface indices in the contact set follow the order of addBody(): partner first (0) unless the case is "swapped"
+        const ContactSurfaceIndex ixPartner(cs.swap ? 1 : 0), ixB(cs.swap ? 0 : 1);
+        auto addPartner = [&] { if (partnerMesh) fx.gcs->addBody(set, carrier, ContactGeometry::TriangleMesh(vertsA, facesA), X_AS1); else if (partnerSphere) fx.gcs->addBody(set, carrier, ContactGeometry::Sphere(Ra), X_AS1); else fx.gcs->addBody(set, carrier, ContactGeometry::HalfSpace(), X_AS1); };
+        if (!cs.swap) addPartner();
+        if (cs.model == M_EF) fx.gcs->addBody(set, bodyB, ContactGeometry::TriangleMesh(verts, faces), X_BS2);
+        if (cs.model == M_EF && cs.swap) addPartner();
         if (cs.model == M_HC) {
-            fx.gcs->addBody(set, fx.B, ContactGeometry::Sphere(Rb), X_BS2);
+            fx.gcs->addBody(set, bodyB, ContactGeometry::Sphere(Rb), X_BS2);
             HuntCrossleyForce hc(fx.forces, *fx.gcs, set);
             hc.setBodyParameters(ContactSurfaceIndex(0), m1.E, m1.c, m1.us, m1.ud, m1.uv);
             hc.setBodyParameters(ContactSurfaceIndex(1), m2.E, m2.c, m2.us, m2.ud, m2.uv);
             if (cs.mat == 0) hc.setTransitionVelocity(vtrans);
         } else {
-            fx.gcs->addBody(set, fx.B, ContactGeometry::TriangleMesh(verts, faces), X_BS2);
             ElasticFoundationForce ef(fx.forces, *fx.gcs, set);
-            ef.setBodyParameters(ContactSurfaceIndex(1), m2.E, m2.c, m2.us, m2.ud, m2.uv);
+            if (!partnerMesh || cs.par != 1) ef.setBodyParameters(ixB, m2.E, m2.c, m2.us, m2.ud, m2.uv);
+            if (partnerMesh && cs.par != 0) ef.setBodyParameters(ixPartner, m1.E, m1.c, m1.us, m1.ud, m1.uv);
             if (cs.mat == 0) ef.setTransitionVelocity(vtrans);
         }
     } else if (cs.model == M_SM) {
         SmoothSphereHalfSpaceForce sm(fx.forces);
         if (alt) { smCf = 4e-5; smBd = 150; smBv = 20; }
         sm.setParameters(m2.E, m2.c, m2.us, m2.ud, m2.uv, vtrans, smCf, smBd, smBv);
-        sm.setContactSphereBody(fx.B); sm.setContactSphereLocationInBody(X_BS2.p()); sm.setContactSphereRadius(Rb);
+        sm.setContactSphereBody(bodyB); sm.setContactSphereLocationInBody(X_BS2.p()); sm.setContactSphereRadius(Rb);
         sm.setContactHalfSpaceBody(carrier); sm.setContactHalfSpaceFrame(X_AS1);
     } else {
         fx.tracker.reset(new ContactTrackerSubsystem(fx.sys));
         fx.ccs.reset(new CompliantContactSubsystem(fx.sys, *fx.tracker));
         fx.ccs->setTransitionVelocity(vtrans);
         const ContactMaterial cm1(m1.E, m1.c, m1.us, m1.ud, m1.uv), cm2(m2.E, m2.c, m2.us, m2.ud, m2.uv);
-        if (partnerSphere) carrier.updBody().addContactSurface(X_AS1, ContactSurface(ContactGeometry::Sphere(Ra), cm1));
+        if (partnerMesh) carrier.updBody().addContactSurface(X_AS1, ContactSurface(ContactGeometry::TriangleMesh(vertsA, facesA), cm1, thicknessA));
+        else if (partnerEllipsoid) carrier.updBody().addContactSurface(X_AS1, ContactSurface(ContactGeometry::Ellipsoid(radiiA), cm1));
+        else if (partnerSphere) carrier.updBody().addContactSurface(X_AS1, ContactSurface(ContactGeometry::Sphere(Ra), cm1));
         else carrier.updBody().addContactSurface(X_AS1, ContactSurface(ContactGeometry::HalfSpace(), cm1));
-        if (cs.model == M_CHC) fx.B.updBody().addContactSurface(X_BS2, ContactSurface(ContactGeometry::Sphere(Rb), cm2));
-        else if (cs.model == M_CHE) fx.B.updBody().addContactSurface(X_BS2, ContactSurface(ContactGeometry::Ellipsoid(radii), cm2));
-        else if (cs.model == M_CBR) fx.B.updBody().addContactSurface(X_BS2, ContactSurface(ContactGeometry::Brick(halfLen), cm2));
-        else fx.B.updBody().addContactSurface(X_BS2, ContactSurface(ContactGeometry::TriangleMesh(verts, faces), cm2, thickness));
+        if (cs.model == M_CHC || shapeSphere) bodyB.updBody().addContactSurface(X_BS2, ContactSurface(ContactGeometry::Sphere(Rb), cm2));
+        else if (cs.model == M_CHE) bodyB.updBody().addContactSurface(X_BS2, ContactSurface(ContactGeometry::Ellipsoid(radii), cm2));
+        else if (cs.model == M_CBR) bodyB.updBody().addContactSurface(X_BS2, ContactSurface(ContactGeometry::Brick(halfLen), cm2));
+        else bodyB.updBody().addContactSurface(X_BS2, ContactSurface(ContactGeometry::TriangleMesh(verts, faces), cm2, thickness));
     }
     fx.sys.realizeTopology();
     State s = fx.sys.getDefaultState();
-    if (!onGround) { fx.A.setQToFitTransform(s, Transform(R_GA, p_GA)); }
-    fx.B.setQToFitTransform(s, Transform(R_GB, kin.oB));
+    if (!onGround) { bodyA.setQToFitTransform(s, Transform(R_GA, p_GA)); }
+    bodyB.setQToFitTransform(s, Transform(R_GB, kin.oB));
     fx.sys.realize(s, Stage::Position);
-    if (!onGround) fx.A.setUToFitVelocity(s, SpatialVec(kin.wA, kin.vA));
-    fx.B.setUToFitVelocity(s, SpatialVec(kin.wB, kin.vB));
+    if (!onGround) bodyA.setUToFitVelocity(s, SpatialVec(kin.wA, kin.vA));
+    bodyB.setUToFitVelocity(s, SpatialVec(kin.wB, kin.vB));
     fx.sys.realize(s, Stage::Dynamics);
     // harness sanity: the state really is the one the harness thinks it is
     {
-        const Vec3 pc = fx.B.findStationLocationInGround(s, X_BS2.p()), vc = fx.B.findStationVelocityInGround(s, X_BS2.p());
+        const Vec3 pc = bodyB.findStationLocationInGround(s, X_BS2.p()), vc = bodyB.findStationVelocityInGround(s, X_BS2.p());
         const Real e1 = (pc - c).norm(), e2 = (vc - kin.velB(c)).norm();
-        const Real e3 = onGround ? 0 : (fx.A.findStationVelocityInGround(s, Vec3(0.3, -0.2, 0.1)) - kin.velA(p_GA + R_GA * Vec3(0.3, -0.2, 0.1))).norm();
+        const Real e3 = onGround ? 0 : (bodyA.findStationVelocityInGround(s, Vec3(0.3, -0.2, 0.1)) - kin.velA(p_GA + R_GA * Vec3(0.3, -0.2, 0.1))).norm();
         if (!(e1 < 1e-13 && e2 < 1e-12 && e3 < 1e-13)) { run.harnessError("fixture kinematics differ from the harness's numbers at " + desc + " (" + verif::fmtd(e1) + "," + verif::fmtd(e2) + "," + verif::fmtd(e3) + ")"); return; }
     }
     const Vector_<SpatialVec> F = fx.sys.getRigidBodyForces(s, Stage::Dynamics);
@@ -243,7 +305,7 @@ static void contactCase(verif::Run& run, const Case& cs) {
     // same configuration with all velocities zero (elastic part of the law)
     State s0 = s; s0.updU() = 0; fx.sys.realize(s0, Stage::Dynamics);
     const Vector_<SpatialVec> F0 = fx.sys.getRigidBodyForces(s0, Stage::Dynamics);
-    const int ia = onGround ? 0 : (int)fx.A.getMobilizedBodyIndex(), ib = (int)fx.B.getMobilizedBodyIndex();
+    const int ia = onGround ? 0 : (int)bodyA.getMobilizedBodyIndex(), ib = (int)bodyB.getMobilizedBodyIndex();
     const Vec3 FB = F[ib][1];
     const Vec3 Mc = F[ib][0] - ((isMesh ? c : L0) - kin.oB) % FB; // moment about the shape origin (mesh) / the point L0 on the common normal
 
@@ -251,7 +313,25 @@ static void contactCase(verif::Run& run, const Case& cs) {
     Real Reff = Rb; if (partnerSphere) Reff = Rb * Ra / (Rb + Ra);
     HertzLaw law = hertzLaw(m1.E, m1.c, m2.E, m2.c, Reff);
     Real eFactor = 1;
-    if (cs.model == M_CHE) {
+    if (cs.model == M_CHE && cs.pair != P_LEGACY) {
+        // ContactGeometry::combineParaboloids / EllipticalPointContact (documentation): the relative (difference) paraboloid of the two surfaces at the
+        // contact; its principal curvatures kmax >= kmin are the eigenvalues of the SUM of the two surfaces' curvature tensors in the common tangent plane
+        // (each measured with its own outward normal).  Harness: tensors from the implicit equations, in Ground, at the contact points it chose itself.
+        const Rotation R_GS1 = X_GS1.R();
+        Mat33 KA, KB;
+        if (partnerSphere) KA = sphereCurvatureTensor(Ra, n);
+        else { const Vec3 pA = ~X_GS1 * foot; KA = R_GS1.asMat33() * ellipsoidCurvatureTensor(radiiA, pA) * ~R_GS1.asMat33(); }
+        if (shapeSphere) KB = sphereCurvatureTensor(Rb, n);
+        else KB = R_GS2.asMat33() * ellipsoidCurvatureTensor(radii, lowInShape) * ~R_GS2.asMat33();
+        Real kmax, kmin; principalCurvatures(KA + KB, n, t, kmax, kmin);
+        // harness self-check: the tensors' null space is the common normal and the trace of each is twice the mean curvature (> 0)
+        run.residual("harness-curvature-tensor-normal", ((KA * n).norm() + (KB * n).norm()) * Rb, 1e-12, where);
+        eFactor = hertzEccentricityFactor(kmax, kmin);
+        law = hertzLaw(m1.E, m1.c, m2.E, m2.c, 2 / (kmax + kmin));
+        law.k *= eFactor;
+        if (kmax / kmin > 1.2) run.count("eccentric-relative-curvature(kmax/kmin>1.2)/" + mn);
+        if (run.verbose) printf("  relative curvatures kmax=%.12g kmin=%.12g eFactor=%.12g\n", kmax, kmin, eFactor);
+    } else if (cs.model == M_CHE) {
         const Vec3 d = ~R_GS2 * (-n); const Vec3 pE(radii[0] * radii[0] * d[0] / h, radii[1] * radii[1] * d[1] / h, radii[2] * radii[2] * d[2] / h);
         const Real a2 = radii[0] * radii[0], b2 = radii[1] * radii[1], c2 = radii[2] * radii[2];
         const Real Kg = h * h * h * h / (a2 * b2 * c2), Hm = h * h * h * (a2 + b2 + c2 - pE.normSqr()) / (2 * a2 * b2 * c2);
@@ -259,10 +339,14 @@ static void contactCase(verif::Run& run, const Case& cs) {
         eFactor = hertzEccentricityFactor(kmax, kmin);
         law = hertzLaw(m1.E, m1.c, m2.E, m2.c, 1 / Hm);          // R = 2/(kmax+kmin)
         law.k *= eFactor;
+        // harness cross-check of the two independent curvature computations (closed-form Gauss/mean curvature vs. tensor from the implicit equation)
+        Real kx, kn; principalCurvatures(R_GS2.asMat33() * ellipsoidCurvatureTensor(radii, lowInShape) * ~R_GS2.asMat33(), n, t, kx, kn);
+        run.residual("harness-curvature-cross-check", (std::abs(kx - kmax) + std::abs(kn - kmin)) / kmax, 1e-11, where);
     }
     if (cs.model == M_SM) law = hertzLaw(m2.E, m2.c, m2.E, m2.c, Rb);
     Real Fnom = law.k * std::pow(depthNominal, 1.5);
     if (isMesh) Fnom = (cs.model == M_EF ? m2.E : m2.E / thickness) * (0.3 * Rb * Rb) * depthNominal;
+    if (partnerMesh) Fnom = (cs.model == M_EF ? std::min(m1.E, m2.E) : std::min(m1.E / thicknessA, m2.E / thickness)) * (0.3 * Rb * Rb) * depthNominal;
     if (cs.model == M_CBR) Fnom = m2.E * depthNominal;
     const Real Fscale = std::max(FB.norm(), Fnom);
     const bool forceApplied = FB.norm() > 0 || F[ia][1].norm() > 0;
@@ -359,6 +443,130 @@ static void contactCase(verif::Run& run, const Case& cs) {
             else run.count("unspecified:potential-energy-while-yanked/" + mn);
         }
         if (run.verbose) printf("  n=%s c=%s depth=%.6g xdot=%.6g vs=%.6g sApp=%.9g (from moment: %d)\n  fnObs=%.15g fnRef=%.15g ftObs=%s eFactor=%.9g pe=%.12g\n", gk::s3(n).c_str(), gk::s3(c).c_str(), depth, xd, vs, sApp, (int)fromMoment, fnObs, fnRef, gk::s3(ftObs).c_str(), eFactor, pe);
+    } else if (partnerMesh) {
+        // ---- two triangle meshes.  ElasticFoundationForce.h: "When two meshes collide, the springs on each mesh are treated independently: each
+        // mesh is assumed to be rigid for purposes of calculating the force exerted by the other mesh's springs"; a spring at every face centroid
+        // that is inside the other object, contact point = nearest point of the other object's surface, f = k a x (1 + c v), Hollars friction
+        // with the parameters of the spring's own mesh.  Both meshes are convex (checked), so "inside" and "nearest surface point" are brute force
+        // over the face planes: an interior point's nearest boundary point is its projection on the nearest face plane.
+        const bool ccsModel = cs.model == M_CEF;
+        struct WMesh { std::vector<Vec3> v0, cen, nrm; std::vector<Real> area; };
+        auto world = [&](const gk::RefMesh& m, const Transform& X, bool& convex) {
+            WMesh w; std::vector<Vec3> vw; for (auto& q : m.v) vw.push_back(X * q);
+            for (auto& f : m.f) { const Vec3 a = vw[f[0]], b = vw[f[1]], cc = vw[f[2]]; const Vec3 nn = (b - a) % (cc - a); w.v0.push_back(a); w.cen.push_back((a + b + cc) / 3); w.area.push_back(0.5 * nn.norm()); w.nrm.push_back(nn / nn.norm()); }
+            convex = true; for (size_t f = 0; f < w.v0.size(); ++f) for (auto& q : vw) if (dot(w.nrm[f], q - w.v0[f]) > 1e-12) convex = false;
+            return w;
+        };
+        bool cvxA, cvxB; const WMesh wB = world(mesh, Transform(R_GS2, c), cvxB), wA = world(meshA, X_GS1, cvxA);
+        if (!cvxA || !cvxB) { run.harnessError("reference mesh is not convex at " + desc); return; }
+        struct Spring { bool ownerIsB; Real area, x, vn; Vec3 cp; bool clamped; };
+        struct Bed { Vec3 F = Vec3(0), M = Vec3(0); Real peAll = 0, peActive = 0; int n = 0; };
+        std::vector<Spring> springs; bool anyClamped = false, ambiguous = false; Real minSlipRatio = Infinity, maxSlip = 0;
+        const Real musC = combineMu(m1.us, m2.us), mudC = combineMu(m1.ud, m2.ud), muvC = combineMu(m1.uv, m2.uv);
+        // CompliantContactSubsystem, judged in the rigid limit of one surface only: composite = the soft surface's k/h and c (ContactSurface.h: strain = x/h),
+        // and the contact point lies on the undeformed surface of the rigid one
+        const bool softIsB = cs.par == 0;
+        const Real khC = softIsB ? m2.E / thickness : m1.E / thicknessA, cC = softIsB ? m2.c : m1.c;
+        auto bed = [&](const WMesh& X, const WMesh& Y, bool ownerIsB) {
+            Bed bd; const Matl& mx = ownerIsB ? m2 : m1;
+            for (size_t i = 0; i < X.cen.size(); ++i) {
+                const Vec3 sp = X.cen[i]; Real dmin = Infinity, d2 = Infinity; size_t fmin = 0; bool inside = true;
+                for (size_t f = 0; f < Y.v0.size(); ++f) { const Real d = -dot(Y.nrm[f], sp - Y.v0[f]); if (!(d > 0)) { inside = false; break; } if (d < dmin) { d2 = dmin; dmin = d; fmin = f; } else if (d < d2) d2 = d; }
+                if (!inside) continue;
+                if (d2 - dmin < 1e-9 * Rb || dmin < 1e-9 * Rb) ambiguous = true;     // nearest face not unique / centroid on the surface up to round-off
+                const Vec3 dir = Y.nrm[fmin], np = sp + dmin * dir; const Real x = dmin;
+                const Vec3 cp = !ccsModel ? np : (ownerIsB == softIsB ? np : sp);
+                const Vec3 vr = ownerIsB ? kin.velA(cp) - kin.velB(cp) : kin.velB(cp) - kin.velA(cp);   // the other body relative to the spring's mesh
+                const Real vn = dot(vr, dir); const Vec3 vtv = vr - vn * dir; const Real vs = vtv.norm();
+                const Real kk = ccsModel ? khC : mx.E, cc = ccsModel ? cC : mx.c;
+                const Real fs = kk * X.area[i] * x * (1 + cc * vn);
+                ++bd.n; bd.peAll += kk * X.area[i] * x * x / 2;
+                Spring sg{ownerIsB, X.area[i], x, vn, cp, !(fs > 0)}; springs.push_back(sg);
+                if (run.verbose) printf("  spring of %s: cp=%s dir=%s x=%.9g vn=%.9g vs=%.9g area=%.9g fs=%.9g\n", ownerIsB ? "B" : "partner", gk::s3(cp).c_str(), gk::s3(dir).c_str(), x, vn, vs, X.area[i], fs);
+                if (!(fs > 0)) { anyClamped = true; continue; }
+                bd.peActive += kk * X.area[i] * x * x / 2;
+                Vec3 force = fs * dir;                                        // on the spring's own body
+                if (vs > 0) {
+                    const Real mu = ccsModel ? (vs >= 10 * vtrans ? mudC + muvC * vs : 0) : hollarsMu(mx.us, mx.ud, mx.uv, vs, vtrans);
+                    force += fs * mu * vtv / vs;
+                    minSlipRatio = std::min(minSlipRatio, vs / vtrans); maxSlip = std::max(maxSlip, vs);
+                }
+                const Vec3 onB = ownerIsB ? force : Vec3(-force);
+                bd.F += onB; bd.M += (cp - c) % onB;
+            }
+            return bd;
+        };
+        const bool bedBActive = ccsModel || cs.par != 1, bedAActive = ccsModel || cs.par != 0;
+        Bed bB, bA; if (bedBActive) bB = bed(wB, wA, true); if (bedAActive) bA = bed(wA, wB, false);
+        const int nSprings = bB.n + bA.n;
+        run.count("springs-engaged/" + mn, nSprings);
+        if (bB.n && bA.n) run.count("cases-with-springs-of-both-meshes/" + mn);
+        if (nSprings && cs.depth >= 2) run.count("mesh-cases-with-springs/" + mn);
+        if (anyClamped) run.count("cases-with-clamped-springs/" + mn);
+        if (ambiguous) run.count("unspecified:nearest-face-not-unique/" + mn);
+        if (nSprings == 0) run.residual("force-without-displaced-spring/" + mn, FB.norm() / Fnom, 1e-12, where);
+        const Real peScale = Fnom * depthNominal;
+        if (!ccsModel && !ambiguous) {
+            const Vec3 Fsum = bB.F + bA.F, Msum = bB.M + bA.M; const Real peSum = bB.peAll + bA.peAll;
+            if (cs.par != 2) {
+                // parameters on one mesh only: that mesh's spring bed with its full face areas
+                run.residual("spring-bed-force-law/" + mn, (FB - Fsum).norm() / Fscale, 1e-9, where);
+                run.residual("spring-bed-moment-law/" + mn, (Mc - Msum).norm() / (Fscale * Rb), 1e-9, where);
+                run.residual("spring-bed-potential-energy/" + mn, std::abs(pe - peSum) / std::max(peSum, peScale), 1e-9, where);
+            } else {
+                // parameters on both: the header is silent about any scaling (literal reading: both beds at full area, scale 1); the source comment says
+                // "If there are two meshes, scale each one's contributions by 50%".  The resultant must be ONE common multiple sigma of the sum of the two
+                // documented beds -- force, moment and potential energy with the same sigma -- and sigma must be one of those two values.
+                const Real rr = Fsum.normSqr() + Msum.normSqr() / (Rb * Rb);
+                if (rr > 0) {
+                    const Real sigma = (dot(FB, Fsum) + dot(Mc, Msum) / (Rb * Rb)) / rr;
+                    run.residual("spring-bed-force-law(both-beds,common-area-scale)/" + mn, (FB - sigma * Fsum).norm() / Fscale, 1e-9, where);
+                    run.residual("spring-bed-moment-law(both-beds,common-area-scale)/" + mn, (Mc - sigma * Msum).norm() / (Fscale * Rb), 1e-9, where);
+                    if (FB.norm() > 1e-6 * Fnom) {
+                        run.expect(std::abs(sigma - 0.5) < 1e-8 || std::abs(sigma - 1) < 1e-8, "two-mesh-area-scale-neither-one(header)-nor-half(source-comment)/" + mn, [&] { return "scale " + verif::fmtd(sigma) + " at " + desc; });
+                        run.count(std::string("unspecified:two-mesh-area-scale/observed-") + (std::abs(sigma - 0.5) < 1e-8 ? "0.5(source-comment)" : std::abs(sigma - 1) < 1e-8 ? "1(header-literal)" : "other"));
+                        run.residual("spring-bed-potential-energy(same-area-scale-as-force)/" + mn, std::abs(pe - sigma * peSum) / std::max(peSum, peScale), 1e-8, where);
+                    }
+                } else run.residual("spring-bed-force-law/" + mn, FB.norm() / Fscale, 1e-9, where);
+            }
+        } else if (ccsModel) {
+            const bool frictionless = musC == 0 && mudC == 0 && muvC == 0;
+            if (cs.par == 2) run.count("unspecified:elastic-foundation-generator-material-combination");
+            else if (!ambiguous && nSprings > 0) {
+                // The share of the patch each mesh's elements represent is not documented (source: each mesh contributes 50% of the averaged patch area);
+                // the element areas ARE reported (ContactDetail::getPatchArea): every brute-force spring must have its element, at the harness's contact
+                // point, and the reported areas must be one common multiple of the face areas per mesh.  That multiple then scales the harness's beds.
+                Real sLo[2] = {Infinity, Infinity}, sHi[2] = {0, 0}; int nActive = 0, nMatched = 0, nDetails = -1; Real worstGeo = 0;
+                ContactPatch patch;
+                if (fx.ccs->getNumContactForces(s) == 1 && fx.ccs->calcContactPatchDetailsById(s, fx.ccs->getContactForce(s, 0).getContactId(), patch) && patch.isValid()) {
+                    nDetails = patch.getNumDetails();
+                    for (auto& sg : springs) {
+                        if (sg.clamped) continue; ++nActive;
+                        for (int i = 0; i < nDetails; ++i) { const ContactDetail& d = patch.getContactDetail(i);
+                            if ((d.getContactPoint() - sg.cp).norm() < 1e-9) { ++nMatched; const Real r = d.getPatchArea() / sg.area; const int o = sg.ownerIsB ? 1 : 0; sLo[o] = std::min(sLo[o], r); sHi[o] = std::max(sHi[o], r);
+                                worstGeo = std::max(worstGeo, std::max(std::abs(d.getDeformation() - sg.x) / Rb, std::abs(d.getDeformationRate() - sg.vn))); break; } }
+                    }
+                } else { for (auto& sg : springs) if (!sg.clamped) ++nActive; if (nActive == 0) nDetails = 0; }
+                run.expect(nDetails == nActive && nMatched == nActive, "patch-elements-vs-brute-force-springs/" + mn, [&] { return std::to_string(nDetails) + " reported elements, " + std::to_string(nActive) + " springs by brute force, " + std::to_string(nMatched) + " matched at " + desc; });
+                if (nActive > 0 && nMatched == nActive) {
+                    run.residual("patch-element-deformation-and-rate-vs-brute-force/" + mn, worstGeo, 1e-9, where);
+                    Real sc[2] = {0, 0};
+                    for (int o = 0; o < 2; ++o) if (sHi[o] > 0) { sc[o] = (sLo[o] + sHi[o]) / 2; run.residual("patch-area-scale-not-uniform-over-a-mesh/" + mn, (sHi[o] - sLo[o]) / sc[o], 1e-10, where); run.expect(sc[o] > 0, "patch-area-scale-not-positive/" + mn, where); }
+                    run.count("unspecified:two-mesh-patch-area-share(taken-from-the-reported-element-areas)");
+                    const bool frictionJudged = frictionless || maxSlip <= 1e-13 || minSlipRatio >= 10;
+                    if (frictionJudged) {
+                        const Vec3 Fref = sc[1] * bB.F + sc[0] * bA.F, Mref = sc[1] * bB.M + sc[0] * bA.M;
+                        run.residual("spring-bed-force-law/" + mn, (FB - Fref).norm() / Fscale, 1e-8, where);
+                        run.residual("spring-bed-moment-law/" + mn, (Mc - Mref).norm() / (Fscale * Rb), 1e-8, where);
+                    } else run.count("unspecified:stribeck-transition-magnitude/" + mn);
+                    if (!anyClamped) { const Real peRef = sc[1] * bB.peActive + sc[0] * bA.peActive; run.residual("potential-energy-law/" + mn, std::abs(pe - peRef) / std::max(peRef, peScale), 1e-8, where); }
+                    else run.count("unspecified:potential-energy-while-yanked/" + mn);
+                    if (run.verbose) printf("  area scale partner=%.12g B=%.12g\n", sc[0], sc[1]);
+                    if (run.currentItem() % 499 == 0) run.sample(desc + " -> reported element area / face area: partner mesh " + verif::jsonNum(sc[0]) + ", B's mesh " + verif::jsonNum(sc[1]));
+                }
+            }
+        }
+        if (run.verbose) printf("  springs B=%d partner=%d FB=%s\n  bedB=%s bedA=%s\n  Mc=%s MB=%s MA=%s pe=%.12g peB=%.12g peA=%.12g\n", bB.n, bA.n, gk::s3(FB).c_str(), gk::s3(bB.F).c_str(), gk::s3(bA.F).c_str(), gk::s3(Mc).c_str(), gk::s3(bB.M).c_str(), gk::s3(bA.M).c_str(), pe, bB.peAll, bA.peAll);
     } else if (isMesh) {
         // ---- bed of springs: one spring at the centroid of every face (ElasticFoundationForce.h); brute force over all faces
         const bool ccsModel = cs.model == M_CEF;
@@ -432,6 +640,19 @@ static void contactCase(verif::Run& run, const Case& cs) {
         }
         if (musC == 0 && muvC == 0 && mudC == 0) run.residual("friction-where-none-documented/" + mn, ftObs.norm() / Fscale, 1e-10, where);
         if (cs.vt == 0 && cs.spin == 0) run.residual("friction-where-none-documented/" + mn, ftObs.norm() / Fscale, 1e-10, where);
+        // What IS documented for every compliant model (ContactMaterial, ContactSurface.h): "f_dissipation = f_stiffness * (dissipation * v_deformation)".
+        // Without spin the relative motion of the two bodies is a pure translation, so every element of the patch has the deformation rate xdot and the
+        // normal resultant must be fn(at rest) * (1 + c xdot), clamped at 0, with c between the two materials' coefficients (equal materials: exactly c).
+        // The stiffness part fn(at rest) itself (the generator uses k x per vertex, source comment only) and the Stribeck curve between stiction and
+        // sliding (stribeck() in CompliantContactSubsystem.cpp, source comment only) stay unspecified.
+        if (cs.spin == 0 && cs.depth >= 2) {
+            const Real fn0 = dot(F0[ib][1], n), cLo = std::min(m1.c, m2.c), cHi = std::max(m1.c, m2.c);
+            const Real a = std::max(Real(0), fn0 * (1 + cLo * xdot)), b = std::max(Real(0), fn0 * (1 + cHi * xdot)), lo = std::min(a, b), hi = std::max(a, b);
+            run.expect(fn0 > 0, "no-elastic-force-at-rest-in-penetration/" + mn, where);
+            if (cLo == cHi) run.residual("dissipation-law(ContactMaterial-doc)/" + mn, std::abs(fnObs - a) / Fscale, 1e-10, where);
+            else run.residual("dissipation-outside-material-bracket(ContactMaterial-doc)/" + mn, std::max(Real(0), std::max(lo - fnObs, fnObs - hi)) / Fscale, 1e-10, where);
+            if (a == 0 && b == 0) run.count("clamped-to-zero/" + mn);
+        }
         if (run.verbose) printf("  brick: deepest=%.9g FB=%s\n", deepest, gk::s3(FB).c_str());
     }
 
@@ -469,9 +690,11 @@ static void contactCase(verif::Run& run, const Case& cs) {
                 run.residual("patch-details-energy-sum/" + mn, std::abs(pes - cf.getPotentialEnergy()) / (Fnom * depthNominal) + std::abs(pws - cf.getPowerDissipation()) / (Fscale * 5.0), 1e-10, where);
                 if ((cs.model == M_CHC || cs.model == M_CHE) && patch.getNumDetails() == 1) {
                     const ContactDetail& d = patch.getContactDetail(0);
-                    run.residual("patch-deformation-vs-geometry/" + mn, std::abs(d.getDeformation() - depth) / Rb, 1e-12, where);
-                    run.residual("patch-deformation-rate-vs-kinematics/" + mn, std::abs(d.getDeformationRate() - xdot), 1e-11, where);
-                    run.residual("patch-normal-vs-geometry/" + mn, std::min((Vec3(d.getContactNormal()) - n).norm(), (Vec3(d.getContactNormal()) + n).norm()), 1e-12, where);
+                    // (implicit-surface pairs: the tracker finds the contact points by an MPR estimate + Newton refinement; bounds from the calibration in notes/C37.md)
+                    const Real geoTol = cs.pair ? GEO_TOL_IMPLICIT : 1e-12;
+                    run.residual("patch-deformation-vs-geometry/" + mn, std::abs(d.getDeformation() - depth) / Rb, geoTol, where);
+                    run.residual("patch-deformation-rate-vs-kinematics/" + mn, std::abs(d.getDeformationRate() - xdot), cs.pair ? GEO_TOL_IMPLICIT : 1e-11, where);
+                    run.residual("patch-normal-vs-geometry/" + mn, std::min((Vec3(d.getContactNormal()) - n).norm(), (Vec3(d.getContactNormal()) + n).norm()), geoTol, where);
                 }
             }
         } else if (forceApplied) run.expect(false, "force-applied-but-no-contact-force-reported/" + mn, where);
@@ -664,6 +887,205 @@ static void multiCase(verif::Run& run, const MultiCase& mc, int variant) {
     if (run.verbose) printf("  together: F1=%s F2=%s\n  alone:    F1=%s F2=%s\n", gk::s3(F[1][1]).c_str(), gk::s3(F[2][1]).c_str(), gk::s3(F1[1][1]).c_str(), gk::s3(F2[2][1]).c_str());
 }
 
+// ---------------------------------------------------------------- parameter changes on an already realized system (history search, depth 2)
+// A fixture is built with parameter set P0 and realized to Stage::Dynamics in a penetrating, approaching, sliding configuration.  Then every sequence
+// of one or two public setters (the complete alphabet of the model, all ordered pairs) is applied to the LIVE objects; after every setter the system is
+// brought up to date the documented way (topology-level setters: realizeTopology() + a new State put into the same configuration; state-resident ones
+// -- ExponentialSpringForce::setMuStatic/setMuKinetic/resetAnchorPoint -- keep the State) and realized to Dynamics again.  Differential oracle: forces,
+// potential energy (and dissipated-power rate where tracked) equal those of a fixture CONSTRUCTED with the final parameters.
+enum { H_HC, H_EF, H_CSPH, H_CELL, H_CBRICK, H_CMESH, H_SMOOTH, H_EXP, NHMODEL };
+static const char* hmodelName(int m) { static const char* n[] = {"HuntCrossleyForce", "ElasticFoundationForce", "CCS-HertzCircular", "CCS-HertzElliptical(ellipsoid-sphere)", "CCS-BrickHalfSpace", "CCS-ElasticFoundation", "SmoothSphereHalfSpaceForce", "ExponentialSpringForce"}; return n[m]; }
+struct HParams {
+    Real E[2] = {1e6, 2e6}, c[2] = {0.4, 0.2}, us[2] = {0.8, 0.7}, ud[2] = {0.5, 0.45}, uv[2] = {0.3, 0.2};     // [0] partner surface, [1] surface on B
+    Real thick = 0.02, scale = 1, vt = 0.05; bool track = false; Vec3 offset = Vec3(0, 0.05, 0.1); Real frameTilt = 0;
+    Real cf = 1e-5, bd = 300, bv = 50; int espar = 0; Real mus = 0.7, muk = 0.5;
+};
+struct HFix : Fixture {
+    std::unique_ptr<HuntCrossleyForce> hc; std::unique_ptr<ElasticFoundationForce> ef; std::unique_ptr<SmoothSphereHalfSpaceForce> sm; std::unique_ptr<ExponentialSpringForce> ex;
+    ContactSetIndex set;
+};
+struct HGeom {     // fixed geometry of the history fixtures
+    Transform X_GA, X_AS1, X_GP; Rotation R_BS2, R_GS2; Vec3 n, foot, t, station; Real R0 = 0.4, Ra = 0.7;
+    Vec3 ellRadii(Real sc) const { return Vec3(1.2, 0.8, 1.9) * (R0 / 2) * sc; }
+    Vec3 brickHalf(Real sc) const { return Vec3(0.3, 0.2, 0.1) * sc; }
+    Transform halfSpaceFrame(Real tilt) const { return X_AS1 * Transform(Rotation(tilt, ZAxis), tilt * Vec3(0.1, 0.1, 0.2)); }   // partner surface frame on A (tilt 0: X_AS1)
+};
+static HGeom hgeom(int model) {
+    HGeom g;
+    g.X_GA = Transform(Rotation(BodyRotationSequence, 0.3, XAxis, -0.4, YAxis, 0.2, ZAxis), Vec3(0.3, 1.5, -0.2));
+    g.X_AS1 = Transform(Rotation(BodyRotationSequence, 0.2, XAxis, -0.3, YAxis, -1.3, ZAxis), Vec3(0.1, -0.2, 0.05));
+    g.X_GP = Transform(Rotation(BodyRotationSequence, 0.4, XAxis, -0.7, YAxis, 0.3, ZAxis), Vec3(-0.3, 0.5, 0.1));
+    g.R_BS2 = Rotation(BodyRotationSequence, 0.35, XAxis, -0.2, YAxis, 0.5, ZAxis);
+    g.station = Vec3(0.15, -0.1, 0.25);
+    const Transform X_GS1 = g.X_GA * g.X_AS1;
+    const bool sphere = model == H_HC || model == H_CELL;
+    if (sphere) { g.n = X_GS1.R() * Vec3(UnitVec3(0.48, 0.6, -0.64)); g.foot = X_GS1.p() + g.Ra * g.n; }
+    else { g.n = -Vec3(X_GS1.x()); g.foot = X_GS1.p() + 0.3 * Vec3(X_GS1.y()) - 0.2 * Vec3(X_GS1.z()); }
+    g.t = tang(Vec3(0.3, 0.5, -0.8), g.n); g.t = g.t / g.t.norm();
+    g.R_GS2 = Rotation(BodyRotationSequence, -0.5, XAxis, 0.25, YAxis, 0.6, ZAxis);
+    if (model == H_CBRICK) g.R_GS2 = Rotation(UnitVec3(g.n), ZAxis, Vec3(0.2, 0.9, 0.4), XAxis) * Rotation(BodyRotationSequence, 0.05, XAxis, -0.03, YAxis, 0.4, ZAxis);
+    return g;
+}
+static void meshArrays(Real R, Array_<Vec3>& verts, Array_<int>& faces) { gk::RefMesh m = gk::icosphere(2, R); for (auto& q : m.v) verts.push_back(q); for (auto& f : m.f) for (int j = 0; j < 3; ++j) faces.push_back(f[j]); }
+static ContactGeometry hshape(int model, const HGeom& g, Real sc) {
+    if (model == H_CELL) return ContactGeometry::Ellipsoid(g.ellRadii(sc));
+    if (model == H_CBRICK) return ContactGeometry::Brick(g.brickHalf(sc));
+    if (model == H_CMESH || model == H_EF) { Array_<Vec3> v; Array_<int> f; meshArrays(g.R0 * sc, v, f); return ContactGeometry::TriangleMesh(v, f); }
+    return ContactGeometry::Sphere(g.R0 * sc);
+}
+static ExponentialSpringParameters hexpParams(const HParams& P) {
+    ExponentialSpringParameters par;
+    if (P.espar == 1) { par.setShapeParameters(-0.002, 1.2, 600); par.setNormalViscosity(1.5); par.setMaxNormalForce(250); par.setFrictionElasticity(3000); par.setFrictionViscosity(40); par.setSettleVelocity(0.03); }
+    par.setInitialMuStatic(P.mus); par.setInitialMuKinetic(P.muk);
+    return par;
+}
+static void hbuild(HFix& fx, int model, const HGeom& g, const HParams& P) {
+    const Transform X_BS2(g.R_BS2, P.offset);
+    if (model == H_HC || model == H_EF) {
+        fx.gcs.reset(new GeneralContactSubsystem(fx.sys)); fx.set = fx.gcs->createContactSet();
+        if (model == H_HC) fx.gcs->addBody(fx.set, fx.A, ContactGeometry::Sphere(g.Ra), g.halfSpaceFrame(P.frameTilt)); else fx.gcs->addBody(fx.set, fx.A, ContactGeometry::HalfSpace(), g.halfSpaceFrame(P.frameTilt));
+        fx.gcs->addBody(fx.set, fx.B, hshape(model, g, P.scale), X_BS2);
+        if (model == H_HC) { fx.hc.reset(new HuntCrossleyForce(fx.forces, *fx.gcs, fx.set)); for (int i = 0; i < 2; ++i) fx.hc->setBodyParameters(ContactSurfaceIndex(i), P.E[i], P.c[i], P.us[i], P.ud[i], P.uv[i]); fx.hc->setTransitionVelocity(P.vt); }
+        else { fx.ef.reset(new ElasticFoundationForce(fx.forces, *fx.gcs, fx.set)); fx.ef->setBodyParameters(ContactSurfaceIndex(1), P.E[1], P.c[1], P.us[1], P.ud[1], P.uv[1]); fx.ef->setTransitionVelocity(P.vt); }
+    } else if (model == H_SMOOTH) {
+        fx.sm.reset(new SmoothSphereHalfSpaceForce(fx.forces));
+        fx.sm->setParameters(P.E[1], P.c[1], P.us[1], P.ud[1], P.uv[1], P.vt, P.cf, P.bd, P.bv);
+        fx.sm->setContactSphereBody(fx.B); fx.sm->setContactSphereLocationInBody(P.offset); fx.sm->setContactSphereRadius(g.R0 * P.scale);
+        fx.sm->setContactHalfSpaceBody(fx.A); fx.sm->setContactHalfSpaceFrame(g.halfSpaceFrame(P.frameTilt));
+    } else if (model == H_EXP) {
+        fx.ex.reset(new ExponentialSpringForce(fx.forces, g.X_GP, fx.B, g.station, hexpParams(P)));
+    } else {
+        fx.tracker.reset(new ContactTrackerSubsystem(fx.sys)); fx.ccs.reset(new CompliantContactSubsystem(fx.sys, *fx.tracker));
+        fx.ccs->setTransitionVelocity(P.vt); if (P.track) fx.ccs->setTrackDissipatedEnergy(true);
+        const ContactMaterial cm1(P.E[0], P.c[0], P.us[0], P.ud[0], P.uv[0]), cm2(P.E[1], P.c[1], P.us[1], P.ud[1], P.uv[1]);
+        if (model == H_CELL) fx.A.updBody().addContactSurface(g.halfSpaceFrame(P.frameTilt), ContactSurface(ContactGeometry::Sphere(g.Ra), cm1));
+        else fx.A.updBody().addContactSurface(g.halfSpaceFrame(P.frameTilt), ContactSurface(ContactGeometry::HalfSpace(), cm1));
+        fx.B.updBody().addContactSurface(X_BS2, ContactSurface(hshape(model, g, P.scale), cm2, model == H_CMESH ? P.thick : 0));
+    }
+}
+struct HObs { Vector_<SpatialVec> F; Real pe = 0, zdot = 0; int nForces = -1; bool tracked = false; };
+// put the (new or kept) state into THE configuration and realize; fixed pose / velocities derived from the initial parameter set only
+static void hconfigure(HFix& fx, int model, const HGeom& g, State& s) {
+    const HParams P0; const Rotation R_GB = g.R_GS2 * ~g.R_BS2; const Real depth0 = model == H_CMESH || model == H_EF ? 0.06 : 0.03;
+    Vec3 low;       // point of the initial shape (shape frame) with outward normal -n
+    const Vec3 d = ~g.R_GS2 * (-g.n);
+    if (model == H_CELL) { const Vec3 r = g.ellRadii(1); const Real h = std::sqrt(square(r[0] * d[0]) + square(r[1] * d[1]) + square(r[2] * d[2])); low = Vec3(r[0] * r[0] * d[0], r[1] * r[1] * d[1], r[2] * r[2] * d[2]) / h; }
+    else if (model == H_CBRICK) { const Vec3 hl = g.brickHalf(1); low = Vec3(d[0] > 0 ? hl[0] : -hl[0], d[1] > 0 ? hl[1] : -hl[1], d[2] > 0 ? hl[2] : -hl[2]); }
+    else low = g.R0 * d;
+    Vec3 c0 = g.foot - depth0 * g.n - g.R_GS2 * low, oB = c0 - R_GB * P0.offset;
+    if (model == H_EXP) { c0 = g.X_GP * Vec3(0.3, -0.2, 0.002); oB = c0 - R_GB * g.station; }
+    const Vec3 wA(0.4, 0.2, -0.3), vA(-0.2, 0.1, 0.3), wB = wA + Vec3(0.1, 0.2, -0.1);
+    const Vec3 pc = c0 + g.R_GS2 * low;           // about the contact
+    Vec3 vB = vA + wA % (pc - g.X_GA.p()) + (-0.3 * g.n + 0.03 * g.t) - wB % (pc - oB);
+    if (model == H_EXP) vB = g.X_GP.R() * Vec3(0.48, -0.64, -0.6) - wB % (c0 - oB);      // fast enough for the friction limit mu*fz to be reached, so that mu matters
+    fx.A.setQToFitTransform(s, g.X_GA); fx.B.setQToFitTransform(s, Transform(R_GB, oB));
+    fx.sys.realize(s, Stage::Position);
+    fx.A.setUToFitVelocity(s, SpatialVec(wA, vA)); fx.B.setUToFitVelocity(s, SpatialVec(wB, vB));
+}
+static HObs hobserve(HFix& fx, State& s) {
+    HObs o; fx.sys.realize(s, Stage::Acceleration);
+    o.F = fx.sys.getRigidBodyForces(s, Stage::Dynamics); o.pe = fx.sys.calcPotentialEnergy(s);
+    if (fx.ccs) { o.nForces = fx.ccs->getNumContactForces(s); o.tracked = fx.ccs->getTrackDissipatedEnergy(); if (o.tracked) o.zdot = s.getZDot()[0] + fx.ccs->getDissipatedEnergy(s); }
+    return o;
+}
+struct HOp { std::string name; bool stateLevel; std::function<void(HFix&, HParams&, State&)> apply; };
+static std::vector<HOp> hops(int model, const HGeom& g) {
+    std::vector<HOp> ops;
+    auto add = [&](const std::string& nm, std::function<void(HFix&, HParams&, State&)> f, bool stateLevel = false) { ops.push_back({nm, stateLevel, f}); };
+    const Vec3 offset2(0.02, 0.04, 0.11); const Real scale2 = 1.12, tilt2 = 0.15;
+    auto setB = [](HParams& P, int which) { if (which == 0) P.E[1] = 3e6; else if (which == 1) P.c[1] = 0.7; else { P.us[1] = 0.6; P.ud[1] = 0.4; P.uv[1] = 0.25; } };
+    auto setPartner = [](HParams& P) { P.E[0] = 4e5; P.c[0] = 0.15; P.us[0] = 0.5; P.ud[0] = 0.3; P.uv[0] = 0.1; };
+    if (model == H_HC || model == H_EF) {
+        static const char* nm[3] = {"setBodyParameters(B,stiffness)", "setBodyParameters(B,dissipation)", "setBodyParameters(B,friction)"};
+        for (int w = 0; w < 3; ++w) add(nm[w], [=](HFix& fx, HParams& P, State&) { setB(P, w); if (fx.hc) fx.hc->setBodyParameters(ContactSurfaceIndex(1), P.E[1], P.c[1], P.us[1], P.ud[1], P.uv[1]); else fx.ef->setBodyParameters(ContactSurfaceIndex(1), P.E[1], P.c[1], P.us[1], P.ud[1], P.uv[1]); });
+        if (model == H_HC) add("setBodyParameters(partner,all)", [=](HFix& fx, HParams& P, State&) { setPartner(P); fx.hc->setBodyParameters(ContactSurfaceIndex(0), P.E[0], P.c[0], P.us[0], P.ud[0], P.uv[0]); });
+        add("setTransitionVelocity", [](HFix& fx, HParams& P, State&) { P.vt = 0.01; if (fx.hc) fx.hc->setTransitionVelocity(0.01); else fx.ef->setTransitionVelocity(0.01); });
+        add("GeneralContactSubsystem::updBodyGeometry(B)", [=](HFix& fx, HParams& P, State&) { P.scale = scale2; fx.gcs->updBodyGeometry(fx.set, ContactSurfaceIndex(1)) = hshape(model, g, scale2); });
+        add("GeneralContactSubsystem::updBodyTransform(B)", [=](HFix& fx, HParams& P, State&) { P.offset = offset2; fx.gcs->updBodyTransform(fx.set, ContactSurfaceIndex(1)) = Transform(g.R_BS2, offset2); });
+        add("GeneralContactSubsystem::updBodyTransform(partner)", [=](HFix& fx, HParams& P, State&) { P.frameTilt = tilt2; fx.gcs->updBodyTransform(fx.set, ContactSurfaceIndex(0)) = g.halfSpaceFrame(tilt2); });
+    } else if (model == H_SMOOTH) {
+        add("setStiffness", [=](HFix& fx, HParams& P, State&) { setB(P, 0); fx.sm->setStiffness(P.E[1]); });
+        add("setDissipation", [=](HFix& fx, HParams& P, State&) { setB(P, 1); fx.sm->setDissipation(P.c[1]); });
+        add("setStaticFriction", [](HFix& fx, HParams& P, State&) { P.us[1] = 0.95; fx.sm->setStaticFriction(0.95); });
+        add("setDynamicFriction", [](HFix& fx, HParams& P, State&) { P.ud[1] = 0.3; fx.sm->setDynamicFriction(0.3); });
+        add("setViscousFriction", [](HFix& fx, HParams& P, State&) { P.uv[1] = 0.45; fx.sm->setViscousFriction(0.45); });
+        add("setTransitionVelocity", [](HFix& fx, HParams& P, State&) { P.vt = 0.01; fx.sm->setTransitionVelocity(0.01); });
+        add("setConstantContactForce", [](HFix& fx, HParams& P, State&) { P.cf = 4e-5; fx.sm->setConstantContactForce(4e-5); });
+        add("setHertzSmoothing", [](HFix& fx, HParams& P, State&) { P.bd = 150; fx.sm->setHertzSmoothing(150); });
+        add("setHuntCrossleySmoothing", [](HFix& fx, HParams& P, State&) { P.bv = 20; fx.sm->setHuntCrossleySmoothing(20); });
+        add("setContactSphereLocationInBody", [=](HFix& fx, HParams& P, State&) { P.offset = offset2; fx.sm->setContactSphereLocationInBody(offset2); });
+        add("setContactSphereRadius", [=](HFix& fx, HParams& P, State&) { P.scale = scale2; fx.sm->setContactSphereRadius(g.R0 * scale2); });
+        add("setContactHalfSpaceFrame", [=](HFix& fx, HParams& P, State&) { P.frameTilt = tilt2; fx.sm->setContactHalfSpaceFrame(g.halfSpaceFrame(tilt2)); });
+        add("setParameters(all)", [](HFix& fx, HParams& P, State&) { P.E[1] = 5e5; P.c[1] = 0.3; P.us[1] = 0.75; P.ud[1] = 0.55; P.uv[1] = 0.1; P.vt = 0.02; P.cf = 2e-5; P.bd = 200; P.bv = 30; fx.sm->setParameters(5e5, 0.3, 0.75, 0.55, 0.1, 0.02, 2e-5, 200, 30); });
+    } else if (model == H_EXP) {
+        add("setParameters", [](HFix& fx, HParams& P, State&) { P.espar = 1; P.mus = 1.2; P.muk = 0.35; fx.ex->setParameters(hexpParams(P)); });   // (a new State starts from the parameters' initial mu)
+        add("setMuStatic(state)", [](HFix& fx, HParams& P, State& s) { P.mus = 0.4; if (P.muk > P.mus) P.muk = P.mus; fx.ex->setMuStatic(s, 0.4); }, true);       // documented: if mu_s < mu_k, mu_k is set equal to mu_s
+        add("setMuKinetic(state)", [](HFix& fx, HParams& P, State& s) { P.muk = 0.9; if (P.muk > P.mus) P.mus = P.muk; fx.ex->setMuKinetic(s, 0.9); }, true);    // documented: if mu_k > mu_s, mu_s is set equal to mu_k
+        add("setMuKinetic(state,small)", [](HFix& fx, HParams& P, State& s) { P.muk = 0.2; if (P.muk > P.mus) P.mus = P.muk; fx.ex->setMuKinetic(s, 0.2); }, true);
+    } else {
+        add("ContactMaterial::setStiffness(B)", [=](HFix& fx, HParams& P, State&) { setB(P, 0); fx.B.updBody().updContactSurface(0).updMaterial().setStiffness(P.E[1]); });
+        add("ContactMaterial::setDissipation(B)", [=](HFix& fx, HParams& P, State&) { setB(P, 1); fx.B.updBody().updContactSurface(0).updMaterial().setDissipation(P.c[1]); });
+        add("ContactMaterial::setFriction(B)", [=](HFix& fx, HParams& P, State&) { setB(P, 2); fx.B.updBody().updContactSurface(0).updMaterial().setFriction(P.us[1], P.ud[1], P.uv[1]); });
+        add("ContactSurface::setMaterial(partner)", [=](HFix& fx, HParams& P, State&) { setPartner(P); fx.A.updBody().updContactSurface(0).setMaterial(ContactMaterial(P.E[0], P.c[0], P.us[0], P.ud[0], P.uv[0])); });
+        add("CompliantContactSubsystem::setTransitionVelocity", [](HFix& fx, HParams& P, State&) { P.vt = 0.01; fx.ccs->setTransitionVelocity(0.01); });
+        add("ContactSurface::setShape(B)", [=](HFix& fx, HParams& P, State&) { P.scale = scale2; fx.B.updBody().updContactSurface(0).setShape(hshape(model, g, scale2)); });
+        add("Body::updContactSurfaceTransform(B)", [=](HFix& fx, HParams& P, State&) { P.offset = offset2; fx.B.updBody().updContactSurfaceTransform(0) = Transform(g.R_BS2, offset2); });
+        add("Body::updContactSurfaceTransform(partner)", [=](HFix& fx, HParams& P, State&) { P.frameTilt = tilt2; fx.A.updBody().updContactSurfaceTransform(0) = g.halfSpaceFrame(tilt2); });
+        add("CompliantContactSubsystem::setTrackDissipatedEnergy", [](HFix& fx, HParams& P, State&) { P.track = true; fx.ccs->setTrackDissipatedEnergy(true); });
+        if (model == H_CMESH) add("ContactSurface::setThickness(B)", [](HFix& fx, HParams& P, State&) { P.thick = 0.035; fx.B.updBody().updContactSurface(0).setThickness(0.035); });
+    }
+    return ops;
+}
+static void historyCase(verif::Run& run, int model, int op1, int op2 /* -1: single op */) {
+    const HGeom g = hgeom(model); const std::vector<HOp> ops = hops(model, g); const std::string mn = hmodelName(model);
+    const std::string desc = "parameter history on " + mn + ": construct, realize(Dynamics), " + ops[op1].name + (op2 >= 0 ? ", realize, " + ops[op2].name : std::string()) + ", realize; compared with a fixture constructed with the final parameters";
+    auto where = [&] { return desc; };
+    HParams P; HFix fx; hbuild(fx, model, g, P);
+    fx.sys.realizeTopology(); State s = fx.sys.getDefaultState(); hconfigure(fx, model, g, s);
+    const HObs first = hobserve(fx, s);
+    const int ib = (int)fx.B.getMobilizedBodyIndex();
+    run.expect(first.F[ib][1].norm() > 0, "harness-history-fixture-engaged/" + mn, where);
+    const int seq[2] = {op1, op2};
+    for (int k = 0; k < 2 && seq[k] >= 0; ++k) {
+        const HOp& op = ops[seq[k]];
+        op.apply(fx, P, s);
+        if (!op.stateLevel) {
+            if (fx.sys.systemTopologyHasBeenRealized()) run.count("note:setter-leaves-the-topology-cache-valid/" + mn + "/" + op.name);
+            fx.sys.realizeTopology(); s = fx.sys.getDefaultState(); hconfigure(fx, model, g, s);
+            if (model == H_EXP) { const ExponentialSpringParameters q = hexpParams(P); P.mus = q.getInitialMuStatic(); P.muk = q.getInitialMuKinetic(); }   // state-resident values restart from the parameters
+        } else run.expect(s.getSystemStage() < Stage::Dynamics, "state-level-setter-does-not-invalidate-Dynamics/" + mn + "/" + op.name, where);   // documented: "will invalidate the System at Stage::Dynamics"
+        if (fx.ccs) run.residual("transition-velocity-reciprocal-not-refreshed/" + mn, std::abs(fx.ccs->getOOTransitionVelocity() * fx.ccs->getTransitionVelocity() - 1), 1e-14, where);   // documented: "a precalculated 1/vt"
+        (void)hobserve(fx, s);
+    }
+    const HObs hist = hobserve(fx, s);
+    HFix fresh; hbuild(fresh, model, g, P);
+    fresh.sys.realizeTopology(); State sf = fresh.sys.getDefaultState(); hconfigure(fresh, model, g, sf);
+    const HObs ref = hobserve(fresh, sf);
+    Real scale = 1, diff = 0, moved = 0;
+    for (int b = 0; b < ref.F.size(); ++b) scale = std::max(scale, ref.F[b][1].norm());
+    for (int b = 0; b < ref.F.size(); ++b) { diff = std::max(diff, ((hist.F[b][1] - ref.F[b][1]).norm() + (hist.F[b][0] - ref.F[b][0]).norm()) / scale); moved = std::max(moved, (first.F[b][1] - ref.F[b][1]).norm() / scale); }
+    run.evaluation(verif::hashStr(desc), moved > 1e-9);
+    run.outcome(hashForce(ref.F[ib][1], verif::hashPod(model)));
+    if (moved > 1e-9) run.count("history-changes-the-force/" + mn); else run.count("history-without-effect-on-the-force/" + mn + "/" + ops[op1].name + (op2 >= 0 ? "+" + ops[op2].name : std::string()));
+    // key suffix = the input class: the setter sequence, except for the one class found to fail on the unchanged tree (see notes/C37.md), which gets a
+    // single stable name: the mesh of an ElasticFoundationForce surface is replaced and setBodyParameters() is not called again for that surface afterwards
+    std::string cls = op2 >= 0 ? ops[op1].name + "+" + ops[op2].name : ops[op1].name;
+    if (model == H_EF) {
+        bool stale = false;
+        for (int k = 0; k < 2 && seq[k] >= 0; ++k) { const std::string& nm = ops[seq[k]].name; if (nm.find("updBodyGeometry") != std::string::npos) stale = true; else if (nm.find("setBodyParameters(B") != std::string::npos) stale = false; }
+        if (stale) cls = "mesh-geometry-replaced-after-setBodyParameters";
+    }
+    run.residual("history-vs-fresh-force/" + mn, diff, 1e-13, where, nullptr, cls);
+    run.residual("history-vs-fresh-potential-energy/" + mn, std::abs(hist.pe - ref.pe) / std::max(std::abs(ref.pe), scale * 0.01), 1e-13, where, nullptr, cls);
+    if (fx.ccs) {
+        run.expect(hist.nForces == ref.nForces && hist.tracked == ref.tracked, "history-vs-fresh-contact-bookkeeping/" + mn, where);
+        if (ref.tracked && hist.tracked) { run.residual("history-vs-fresh-dissipated-power/" + mn, std::abs(hist.zdot - ref.zdot) / (scale * 1.0), 1e-13, where, nullptr, cls); run.expect(ref.zdot > 0, "harness-history-dissipation-engaged/" + mn, where); }
+    }
+    if (model == H_EXP) run.residual("history-vs-fresh-mu/" + mn, std::abs(fx.ex->getMuStatic(s) - P.mus) + std::abs(fx.ex->getMuKinetic(s) - P.muk) + std::abs(fresh.ex->getMuStatic(sf) - P.mus) + std::abs(fresh.ex->getMuKinetic(sf) - P.muk), 1e-15, where, nullptr, cls);
+    if (run.verbose) { printf("  first force on B %s\n  history        %s\n  fresh          %s\n  pe %.15g vs %.15g\n", gk::s3(first.F[ib][1]).c_str(), gk::s3(hist.F[ib][1]).c_str(), gk::s3(ref.F[ib][1]).c_str(), hist.pe, ref.pe); }
+    if (run.currentItem() % 97 == 0) run.sample(desc + " -> force on B " + gk::s3(ref.F[ib][1]));
+}
+
 int main(int argc, char** argv) {
     verif::Run run("C37", argc, argv);
     run.setDeadline(300, 1800);
@@ -671,15 +1093,24 @@ int main(int argc, char** argv) {
     run.rule = "E3: single-contact case = (model in {HuntCrossleyForce, ElasticFoundationForce, CompliantContactSubsystem Hertz circular / Hertz elliptical / brick-halfspace / elastic-foundation mesh, SmoothSphereHalfSpaceForce}, "
                "material set(2), friction set(3, incl. mu=0 and viscous), partner(3: half space on Ground / half space on a moving body / sphere on a moving body or alternative shape), penetration(<0, 0, small, large), "
                "normal velocity(approach, rest, separate slowly, separate fast = clamped), tangential velocity(0, 0.4 vt, 2 vt, 30 vt), spin(0, rolling-compatible + drilling), value set); ExponentialSpringForce case = (parameter set(2), mu set(3), plane(3), "
-               "height(5, incl. max-force clamp), normal velocity(4), tangential velocity(3), Sliding(0,.5,1), anchor offset(3), spin(2)); multi-contact case = (model(4), body-1 state(5), body-2 state(5), order of adding surfaces(2)). "
-               "distinct = distinct tuple; non-trivial = a non-zero force is applied";
+               "height(5, incl. max-force clamp), normal velocity(4), tangential velocity(3), Sliding(0,.5,1), anchor offset(3), spin(2)); multi-contact case = (model(4), body-1 state(5), body-2 state(5), order of adding surfaces(2)); "
+               "Hertz-elliptical pair case = (pair(3: ellipsoid on B / sphere, sphere on B / ellipsoid, ellipsoid / ellipsoid), material set(2), friction set(3), carrier(3: partner on Ground, on a moving body, moving bodies in swapped order), "
+               "penetration(4), normal velocity(4), tangential velocity(4), spin(2)); mesh/mesh case = (model(2: ElasticFoundationForce, CCS generator), parameters(3: on B's mesh / on the partner mesh / on both; CCS: which mesh is rigid / comparable), "
+               "friction set(3), carrier(3), penetration(4), normal velocity(4), tangential velocity(4), spin(2)); parameter-history case = (model(8), every sequence of 1 or 2 setters out of the model's complete setter alphabet (4..13 setters)). "
+               "distinct = distinct tuple; non-trivial = a non-zero force is applied (history: the setter sequence changes the force)";
     run.assumptions = {"continuous values only from the fixed tables in the harness (3 value sets selected by VERIF_SEED; thorough runs all 3)",
                        "the point of application is not documented for the single-point models: it is recovered from the applied moment and required to lie on the common normal inside the overlap region; slip is evaluated there",
                        "CompliantContactSubsystem: Hertz law and material/friction combination rule transcribed from HuntCrossleyForce.h (the only place the library documents them); dissipation factor 3/2 as in Hunt-Crossley (ContactSurface.h's generic f_stiffness*c*v omits it)",
                        "CompliantContactSubsystem friction magnitude is judged exactly only for mu=0, zero slip and slip >= 10 vt (ContactSurface.h: mu_d*N + mu_v*v*N at significant sliding speed); between, only direction and the mu_s limit",
                        "elastic-foundation generator: quantitative only in the rigid-partner limit (partner 1e11 times stiffer), where any sane combination rule reduces to the mesh's own k/h and c",
                        "Hertz elliptical: Hertz theory (Johnson) with elliptic integrals by AGM, tolerance 2e-4 because the library documents 5-7 digit approximations",
-                       "body poses/velocities are set through setQToFitTransform/setUToFitVelocity and verified against the harness's own numbers"};
+                       "body poses/velocities are set through setQToFitTransform/setUToFitVelocity and verified against the harness's own numbers",
+                       "Hertz elliptical between two curved surfaces: the harness chooses the common normal and takes the surface points having that normal (closed form), so no contact search is needed in the reference; relative curvatures from the sum of the curvature tensors of the implicit equations (combineParaboloids / EllipticalPointContact documentation), R = 2/(kmax+kmin) and eccentricity factor as for the half-space case",
+                       "mesh/mesh: both meshes are convex icospheres (checked), so 'centroid inside the other mesh' and 'nearest surface point' are brute force over the face planes; cases where the nearest face is not unique to 1e-9 are counted unspecified (none occur)",
+                       "ElasticFoundationForce with parameters on both meshes: the header is silent about scaling (literal reading: both beds at full area), the source comment says 50% each; required: force, moment and potential energy are ONE common multiple of the sum of the two documented beds and that multiple is 1 or 1/2 (observed: 1/2, counted)",
+                       "CompliantContactSubsystem mesh/mesh: judged in the rigid limit of one mesh (composite = the soft mesh's k/h and c, contact point on the rigid mesh's undeformed surface); the share of the patch area each mesh's elements represent is undocumented and is taken from the reported ContactDetail patch areas (must be uniform per mesh), every brute-force spring must have its reported element",
+                       "brick/half-space: only ContactSurface.h's 'f_dissipation = f_stiffness*c*v' is documented -> judged on the normal resultant for pure relative translation (equal materials exactly, different materials: c within the two materials' bracket); the per-vertex k*x stiffness law and the Stribeck curve stribeck(us,ud,uv,v) are documented only in source comments of CompliantContactSubsystem.cpp and stay qualitative",
+                       "parameter history: after a topology-level setter the system is re-realized with realizeTopology() and a NEW default State is put into the same configuration; state-resident setters (ExponentialSpringForce::setMuStatic/setMuKinetic) keep the State; the reference is a fixture constructed with the final parameters (same arithmetic -> agreement to 1e-13, observed 0)"};
     std::vector<int> variants = th ? std::vector<int>{0, 1, 2} : std::vector<int>{(int)(((run.seed % 3) + 3) % 3)};
 
     // ---- single-contact models
@@ -691,6 +1122,31 @@ int main(int argc, char** argv) {
         if (run.verbose) printf("%s\n", caseStr(c).c_str());
         contactCase(run, c);
     });
+    // ---- Hertz elliptical between two curved surfaces (relative-curvature path): ellipsoid/sphere in both assignments and ellipsoid/ellipsoid,
+    //      partner on Ground or on a moving body, with the two moving bodies in both orders
+    verif::Odometer oh;
+    oh.dim("spin", 2); oh.dim("vt", 4); oh.dim("vn", 4); oh.dim("depth", 4); oh.dim("carrier", 3); oh.dim("fric", 3); oh.dim("mat", 2); oh.dim("pair", 3); oh.dim("variant", (int64_t)variants.size());
+    run.parallel("hertz-elliptical-pairs", oh.size(), [&](int64_t idx) {
+        auto d = oh.digits(idx);
+        Case c; c.spin = d[0]; c.vt = d[1]; c.vn = d[2]; c.depth = d[3]; c.partner = d[4] == 0 ? 0 : 1; c.swap = d[4] == 2; c.fric = d[5]; c.mat = d[6]; c.model = M_CHE; c.pair = 1 + d[7]; c.variant = variants[d[8]];
+        if (run.verbose) printf("%s\n", caseStr(c).c_str());
+        contactCase(run, c);
+    });
+    // ---- mesh against mesh: ElasticFoundationForce (parameters on one / the other / both meshes) and the CompliantContactSubsystem generator
+    verif::Odometer omm;
+    omm.dim("spin", 2); omm.dim("vt", 4); omm.dim("vn", 4); omm.dim("depth", 4); omm.dim("carrier", 3); omm.dim("fric", 3); omm.dim("par", 3); omm.dim("model", 2); omm.dim("variant", (int64_t)variants.size());
+    run.parallel("mesh-mesh", omm.size(), [&](int64_t idx) {
+        auto d = omm.digits(idx);
+        Case c; c.spin = d[0]; c.vt = d[1]; c.vn = d[2]; c.depth = d[3]; c.partner = d[4] == 0 ? 0 : 1; c.swap = d[4] == 2; c.fric = d[5]; c.par = d[6]; c.mat = 0; c.model = d[7] ? M_CEF : M_EF; c.pair = P_MESH_MESH; c.variant = variants[d[8]];
+        if (run.verbose) printf("%s\n", caseStr(c).c_str());
+        contactCase(run, c);
+    });
+    // ---- parameter changes after realization: all setter sequences of length 1 and 2 per model
+    {
+        std::vector<std::array<int, 3>> hcases;
+        for (int m = 0; m < NHMODEL; ++m) { const int nops = (int)hops(m, hgeom(m)).size(); for (int a = 0; a < nops; ++a) { hcases.push_back({m, a, -1}); for (int b = 0; b < nops; ++b) hcases.push_back({m, a, b}); } }
+        run.parallel("parameter-history", (int64_t)hcases.size(), [&](int64_t idx) { const auto& h = hcases[idx]; historyCase(run, h[0], h[1], h[2]); });
+    }
     // ---- exponential springs
     verif::Odometer oe;
     oe.dim("spin", 2); oe.dim("anchor", 3); oe.dim("sliding", 3); oe.dim("vxy", 3); oe.dim("vz", 4); oe.dim("pz", 5); oe.dim("plane", 3); oe.dim("mu", 3); oe.dim("par", 2); oe.dim("variant", (int64_t)variants.size());
